@@ -93,7 +93,9 @@ class FortranRegularExpressions:
         r"CONTIGUOUS)",
         I,
     )
-    PARAMETER_VAL: Pattern = compile(r"\w*[\s\&]*=(([\s\&]*[\w\.\-\+\*\/\'\"])*)", I)
+    PARAMETER_VAL: Pattern = compile(
+        r"\w*[\s\&]*=(([\s\&]*[\w\.\-\+\*\/\'\"\(\)])*)", I
+    )
     TATTR_LIST: Pattern = compile(
         r"[ ]*,[ ]*(PUBLIC|PRIVATE|ABSTRACT|EXTENDS\(\w*\))", I
     )
